@@ -112,8 +112,16 @@ def run(pid, tier, rep, cov, owner_of):
             for (_l, t2, _r) in sc["variants"]:
                 traces.append(t2)
         rt = repo_test_traces()
+        # No listed property fixes the ORDER of attempts (C05 says the result does not depend on it), so a trace is judged
+        # with any order allowed.  Whether the default order is the documented natural one is recorded, never alarmed on.
+        natural = [dict(t, det=True, tid=t["tid"] + 50000) for t in rt["traces"]] if pid == "C06" else []
+        for t in rt["traces"]:
+            t["det"] = False
         traces += rt["traces"]
-        verdicts, st, tn = runs.validate_parallel(traces, work)
+        verdicts, st, tn = runs.validate_parallel(traces + natural, work)
+        if natural:
+            cov["repo_test_traces_in_documented_natural_order"] = sum(1 for t in natural if not verdicts[t["tid"]][2])
+            cov["repo_test_traces_in_another_order"] = sum(1 for t in natural if "schedule allows" in verdicts[t["tid"]][2])
         rejected = 0
         for tr in traces:
             consumed, total, err = verdicts[tr["tid"]]
